@@ -33,6 +33,7 @@ Extends the A5 pattern-matrix evaluator (lib/tables.py) with small finite abstra
 Nothing of /repo is executed: the evaluator walks the typed HIR of the current tree; anything it does not model
 evaluates to an uninterpreted symbol, and `has_sym` lets the rule fail closed on it.
 """
+import os
 import re
 
 from . import hir as H
@@ -602,6 +603,14 @@ class Ev(T.Evaluator):
                 return ("tbl", {})
             if ty.startswith("alloc::vec::Vec<") or ty.startswith("alloc::collections::vec_deque::VecDeque<"):
                 return ("iter", [])
+        # ---- and_then / map on an opaque Result (the value of a call that is not interpreted): the success path continues with the
+        #      payload, exactly as `let x = call?; ..` does (the error path leaves with the error either way)
+        opaque_result = a0 is not None and (T.is_sym(a0) or (a0[0] == "v" and a0[1] not in ("Some", "None", "Ok", "Err")))
+        if opaque_result and nm in ("and_then", "map") and len(args) == 2 and (n.get("recv") or {}).get("ty", "").lstrip("&").startswith("core::result::Result<"):
+            # an abstract term standing for the result of a modelled call (`map_class(remapper, E)`) is its own success payload, as under `?`
+            payload = T.sym(a0[1] + "?") if T.is_sym(a0) else a0
+            r = self.apply(args[1], [payload])
+            return r if nm == "and_then" else T.V("Ok", r)
         # ---- Option / Result combinators on concrete variants
         if k0 == "v" and a0[1] in ("Some", "None", "Ok", "Err"):
             good = a0[1] in ("Some", "Ok")
